@@ -166,6 +166,9 @@ func main() {
 				if strings.HasPrefix(o, sp.Expect+"|") {
 					continue
 				}
+				if sp.Expect != "panic" && strings.HasPrefix(o, "panic|") {
+					continue // a claim about the value says nothing about runs that yield no value
+				}
 			} else {
 				n = run(fs[1], i)
 				if o == n {
